@@ -246,6 +246,7 @@ struct CmdVisitor {
     prechecks: Vec<GuardedCall>,
     writes: Vec<GuardedCall>,
     hard_checkouts: Vec<GuardedCall>,
+    branch_arg: bool,
 }
 
 const PRECHECKS: &[&str] = &[
@@ -275,6 +276,8 @@ const WRITES: &[&str] = &[
     "set_branch_description",
     "update_ref",
     "checkout",
+    "branch_move",
+    "branch_copy",
 ];
 
 const BUILDER_OPTS: &[&str] = &[
@@ -373,8 +376,8 @@ impl<'ast> Visit<'ast> for CmdVisitor {
     fn visit_expr_call(&mut self, c: &'ast syn::ExprCall) {
         let f = toks(&c.func);
         let last = f.rsplit("::").next().unwrap_or("").trim().to_string();
-        if last == "read_tree_checkout_hard" {
-            // not a call form we expect, but keep for completeness
+        if last == "branch_arg" {
+            self.branch_arg = true;
         }
         syn::visit::visit_expr_call(self, c);
     }
@@ -1046,11 +1049,25 @@ fn main() {
         writeln!(s, "  ci_writes := {};", coq_list(&v.writes, guarded)).unwrap();
         writeln!(
             s,
-            "  ci_hard_checkouts := {} |}}.",
+            "  ci_hard_checkouts := {};",
             coq_list(&v.hard_checkouts, guarded)
         )
         .unwrap();
-        let _ = v.prechecks.iter().map(|g| g.line).count();
+        // prechecks and writes together, in source order (by line; stable)
+        let mut seq: Vec<(usize, String, String)> = v
+            .prechecks
+            .iter()
+            .chain(v.writes.iter())
+            .map(|g| (g.line, g.func.clone(), g.name.clone()))
+            .collect();
+        seq.sort_by_key(|(l, _, _)| *l);
+        writeln!(
+            s,
+            "  ci_seq := {};",
+            coq_list(&seq, |(_, f, n)| format!("({}, {})", coq_str(f), coq_str(n)))
+        )
+        .unwrap();
+        writeln!(s, "  ci_branch_arg := {} |}}.", if v.branch_arg { "true" } else { "false" }).unwrap();
     }
     writeln!(
         s,
